@@ -167,6 +167,13 @@ pub open spec fn slice_ok(s: &str, a: int, b: int) -> bool {
     && vstd::utf8::is_char_boundary(s.spec_bytes(), a)
     && vstd::utf8::is_char_boundary(s.spec_bytes(), b)
 }
+/// `next()` of an iterator over collected pairs, with an explicit cursor
+pub fn pairs_next(v: &Vec<(usize, char)>, k: &mut usize) -> (r: Option<(usize, char)>)
+    ensures (old(k) < v@.len()) ==> (r == Some(v@[*old(k) as int]) && *final(k) == *old(k) + 1),
+            (old(k) >= v@.len()) ==> (r.is_none() && *final(k) == *old(k))
+{
+    if *k < v.len() { let x = v[*k]; *k = *k + 1; Some(x) } else { None }
+}
 /// `s.chars().take(n).collect::<String>()`: the first n characters (all of them when there are fewer); never panics
 #[verifier::external_body]
 pub fn str_take_chars(s: &str, n: usize) -> (r: String)
